@@ -324,6 +324,9 @@ func prune(n *node, o cmpOpts, inForeign bool) {
 			if cl == "xmlns" || cl == "foreign" {
 				continue
 			}
+			if cl == "" && a.local == "xmlns" && !o.inline {
+				continue // a namespace declaration, not an attribute: its effect is compared through the namespaces of the elements
+			}
 			if isSVGElem(n, "svg") && cl == "" {
 				v := collapse(a.val)
 				switch a.local {
@@ -467,7 +470,7 @@ func compareNodes(a, b *node, o cmpOpts, where string, inForeign, inText bool) *
 	}
 	for i := 0; i < n; i++ {
 		x, y := ka[i], kb[i]
-		if x.kind != y.kind || x.kind == 'e' && (x.local != y.local || nsKey(x) != nsKey(y)) || x.kind == 'p' && x.local != y.local {
+		if x.kind != y.kind || x.kind == 'e' && (x.local != y.local || nsKey(x) != nsKey(y) || !o.inline && x.ns != y.ns) || x.kind == 'p' && x.local != y.local {
 			cat := "struct:child-differs"
 			if x.kind == 'p' && y.kind != 'p' {
 				cat = "pi-dropped:" + x.local
